@@ -45,6 +45,7 @@ type Conn struct {
 	// ClosedReadErr: what a Read returns after the local end was closed (default ErrClosed). Real
 	// transports differ: net.ErrClosed for sockets, io.ErrClosedPipe for net.Pipe and io.Pipe-backed ones
 	ClosedReadErr error
+	NilRemote bool // RemoteAddr() returns nil (address not known)
 	ClosedAt time.Duration // virtual time of the first Close
 	CloseBy  string
 }
@@ -239,7 +240,12 @@ func (c *Conn) Close() error {
 }
 
 func (c *Conn) LocalAddr() net.Addr                { return c.Local }
-func (c *Conn) RemoteAddr() net.Addr               { return c.Remote }
+func (c *Conn) RemoteAddr() net.Addr {
+	if c.NilRemote {
+		return nil // "the remote network address, if known": some transports look it up lazily and fail once the peer is gone
+	}
+	return c.Remote
+}
 // Deadlines run on the virtual clock. Setting one arms a wake-up timer at that instant; a Read
 // (or Write) that finds its deadline reached - when it is called or while it is blocked - fails
 // with a timeout error that, like the real one, says it is temporary.
